@@ -252,3 +252,11 @@ mutant("c07-brent-product-lt-zero", "C07", "R7.8/roots::brent/bracket-lost", (RM
 mutant("c07-itp-arms-swapped", "C07", "R7.8/roots::itp/bracket-lost", (RM, "        if f_itp > N::zero() {\n            right = x_itp;\n            f_right = f_itp;\n        } else if f_itp < N::zero() {\n            left = x_itp;\n            f_left = f_itp;", "        if f_itp < N::zero() {\n            right = x_itp;\n            f_right = f_itp;\n        } else if f_itp > N::zero() {\n            left = x_itp;\n            f_left = f_itp;"))
 benign("c07-bisection-signbits-compared", "C07", (RM, "        if (f_p * f_a).is_sign_positive() {", "        if f_p.is_sign_positive() == f_a.is_sign_positive() {"))
 benign("c07-bisection-signum-compared", "C07", (RM, "        if (f_p * f_a).is_sign_positive() {", "        if f_p.signum() == f_a.signum() {"))
+OM = "src/optimize/mod.rs"
+mutant("c17-lm-rhs-sign", "C17", "R17.4/optimize::curve_fit/rhs=JT(y-f)", (OM, "        // Get right side of iteration equation\n        let diff = &ys - &evaluation;", "        // Get right side of iteration equation\n        let diff = &evaluation - &ys;"))
+mutant("c17-lm-damping-diag", "C17", "R17.4/optimize::curve_fit/lhs=JTJ+damping", (OM, "            multiplied[(i, i)] *= N::one() + N::from_real(damping);\n        }\n        // Solve equation with LU", "            multiplied[(i, i)] *= N::from_real(damping);\n        }\n        // Solve equation with LU"))
+mutant("c17-lm-sum-sq-wrong-trial", "C17", "R17.4/optimize::curve_fit/sum_sq=", (OM, "        } else {\n            params = new_params;\n            sum_sq = resid;\n        }\n\n        jac_finite_differences", "        } else {\n            params = new_params;\n            sum_sq = resid_div;\n        }\n\n        jac_finite_differences"))
+mutant("c17-lm-transpose-stale", "C17", "R17.4/optimize::curve_fit_jac/transpose-in-step", (OM, "        jac_analytic(&mut jacobian, xs, &mut params, &mut jac);\n        jac_transpose = jac.transpose();\n    }\n\n    Ok(params)", "        jac_analytic(&mut jacobian, xs, &mut params, &mut jac);\n    }\n\n    Ok(params)"))
+mutant("c17-lm-keeps-worse-trial", "C17", "R17.4/optimize::curve_fit_jac/keeps-the-better-trial", (OM, "        if resid_div < resid {\n            damping /= damping_mult;\n            evaluation = evaluation_div;\n            params = new_params_div;\n            sum_sq = resid_div;\n        } else {\n            params = new_params;\n            sum_sq = resid;\n        }\n\n        jac_analytic", "        if resid_div > resid {\n            damping /= damping_mult;\n            evaluation = evaluation_div;\n            params = new_params_div;\n            sum_sq = resid_div;\n        } else {\n            params = new_params;\n            sum_sq = resid;\n        }\n\n        jac_analytic"))
+mutant("c17-lm-evaluation-stale", "C17", "R17.4/optimize::curve_fit_jac/evaluation=f(xs,p')", (OM, "            damping /= damping_mult;\n            evaluation = evaluation_div;\n            params = new_params_div;\n            sum_sq = resid_div;\n        } else {\n            params = new_params;\n            sum_sq = resid;\n        }\n\n        jac_analytic", "            damping /= damping_mult;\n            params = new_params_div;\n            sum_sq = resid_div;\n        } else {\n            params = new_params;\n            sum_sq = resid;\n        }\n\n        jac_analytic"))
+benign("c17-lm-refactor", "C17", (OM, "            multiplied[(i, i)] *= N::one() + N::from_real(damping);\n        }\n        // Solve equation with LU", "            multiplied[(i, i)] = multiplied[(i, i)] * (N::from_real(damping) + N::one());\n        }\n        // Solve equation with LU"))
